@@ -42,6 +42,7 @@ UNIT = dict(
     prelude=['prelude.rs', 'prelude_float.rs'],
     items=COMMON + UTILS_FNS + SCORE_STUBS + [SYNC_SPEC,
         dict(kind='struct', file=G, name='GlobalCache', rules=R1_TYPES),
+        fn('new', ret='c', rules=R1_TYPES, ensures=[('stores_arguments', ['C01', 'C04', 'C05', 'C06', 'C07', 'C08'], 'c.limit == limit && c.max_memory == max_memory && c.policy == policy && c.ttl == ttl && c.frequency_weight == frequency_weight && c.map@ == map@ && c.order@ == order@')]),
         fn('get', ret='res', requires=wf_pre(M), ensures=get_ensures(M)),
         fn('increment_frequency', ensures=incr_ensures(M)),
         fn('handle_entry_limit_eviction', split_self=True,
@@ -64,6 +65,7 @@ UNIT = dict(
                    decreases='o@.len()'),
            },
            hints=MEM_HINTS + [(('before_loop', 1), 'snapshot', 'let ghost m_in = map_write@; let ghost o_in = o@;')]),
+        fn('clear', impl=IMPL_MEM, impl_rules=IMPL_RULES, ensures=[CFG_FRAME, ('empties_store_and_queue', ['C12', 'C04'], 'final(self).map@.len() == 0 && final(self).order@.len() == 0'), ('stats_frame', ['C15'], 'final(self).stats == old(self).stats')]),
         fn('insert_result', impl=r"^impl<T: Clone \+ Debug \+ 'static, E: Clone \+ Debug \+ 'static> GlobalCache<Result<T, E>>$", requires=store_pre(M), ensures=insert_result_ensures(M)),
         fn('insert_result_with_memory', impl=r"MemoryEstimator,? > GlobalCache<Result<T, E>>$", impl_rules=IMPL_RULES,
            requires=store_pre(M) + [('counters_unsaturated', 'freq_ok(old(self).%s@)' % M)],
